@@ -92,4 +92,40 @@ theorem sem_inv_preserved (st : SemSt) (k : Kind) (a : Int) (h : st.inv) : (exec
   obtain ⟨v, q, g⟩ := st
   cases k <;> simp_all [execSem, SemSt.inv] <;> (cases v <;> cases q <;> simp_all)
 
+/-! ### barriers (after the LOCK/LOCK repair: on one barrier only WAIT × WAIT is declared independent) -/
+
+def barIndepSame (k1 k2 : Kind) : Bool :=
+  dependsBase { kind := k1, aid := 1, bar := 0 } { kind := k2, aid := 2, bar := 0 } == some false
+
+def benabled (st : BarSt) (k : Kind) (a : Int) : Bool := (k != .BARRIER_WAIT) || st.granted.contains a
+
+theorem bar_obj_commute (st : BarSt) (k1 k2 : Kind) (a1 a2 : Int) (ha : a1 ≠ a2)
+    (h1 : isBarKind k1 = true) (h2 : isBarKind k2 = true) (hi : barIndepSame k1 k2 = true)
+    (e1 : benabled st k1 a1 = true) (e2 : benabled st k2 a2 = true) :
+    benabled (execBar st k1 a1) k2 a2 = true ∧ benabled (execBar st k2 a2) k1 a1 = true ∧
+    execBar (execBar st k1 a1) k2 a2 = execBar (execBar st k2 a2) k1 a1 := by
+  have ha' : a2 ≠ a1 := fun e => ha e.symm
+  obtain ⟨n, w, g⟩ := st
+  cases k1 <;> simp [isBarKind] at h1 <;> cases k2 <;> simp [isBarKind] at h2 <;>
+    first
+      | (exfalso; revert hi; decide)
+      | (simp_all [benabled, execBar, List.mem_erase_of_ne, List.erase_comm] <;> done)
+
+theorem exec_bar (s : State) (t : Base) (h : isBarKind t.kind = true) :
+    exec s t = { s with bar := upd s.bar t.bar (execBar (s.bar t.bar) t.kind t.aid) } := by
+  cases hk : t.kind <;> simp [isBarKind, hk] at h <;> simp [exec, isMutexKind, isSemKind, isBarKind, hk]
+
+theorem enabled_bar (s : State) (t : Base) (h : isBarKind t.kind = true) :
+    enabled s t = benabled (s.bar t.bar) t.kind t.aid := by
+  cases hk : t.kind <;> simp [isBarKind, hk] at h <;> simp [enabled, benabled, hk]
+
+theorem barIndepSame_of_depends (t1 t2 : Base) (h1 : isBarKind t1.kind = true) (h2 : isBarKind t2.kind = true)
+    (ha : t1.aid ≠ t2.aid) (hm : t1.bar = t2.bar) (hd : depends (.base t1) (.base t2) = some false) :
+    barIndepSame t1.kind t2.kind = true := by
+  cases hk1 : t1.kind <;> simp [isBarKind, hk1] at h1 <;>
+  cases hk2 : t2.kind <;> simp [isBarKind, hk2] at h2 <;>
+  simp [depends, Tr.aid, Tr.current, dependsBase, ha, hk1, hk2, hm, Kind.toNat, lut, lutRow_BARRIER_ASYNC_LOCK,
+    lutRow_BARRIER_WAIT, evalAction, barrierDepends] at hd <;>
+  decide
+
 end SgVerif.C39
